@@ -35,6 +35,26 @@ def jsonOK (cfg : Cfg) : Op → Bool
 
 /-! ### Inv_wrapped is established on load and on assignment -/
 
+/-- `validate` = `make` for everything that is not a wrapper of another object / attribute -/
+theorem assigned_of_tupFree (cfg : Cfg) (v : T) (hv : tupFree v = true) : assigned cfg v = make cfg v := by
+  cases v with
+  | atom a => rfl
+  | node k w xs => cases k <;> first | rfl | simp [tupFree] at hv
+
+theorem assigned_eq_make (cfg : Cfg) (h : cfg.assignRebinds = true) (v : T) : assigned cfg v = make cfg v := by
+  cases v with
+  | atom a => rfl
+  | node k w xs => cases k <;> simp [assigned, h]
+
+/-- every way of handing a value in re-binds what is handed in -/
+def rebindsAll (cfg : Cfg) : Bool := cfg.makeTuple && cfg.rebinds && cfg.assignRebinds
+
+theorem assigned_allW (cfg : Cfg) (v : T) (hv : tupFree v = true ∨ rebindsAll cfg = true) : allW (assigned cfg v) = true := by
+  rcases hv with hv | hv
+  · rw [assigned_of_tupFree cfg v hv]; exact make_allW_of_tupFree cfg v hv
+  · simp only [rebindsAll, Bool.and_eq_true] at hv
+    rw [assigned_eq_make cfg hv.2 v]; exact make_allW cfg hv.1.1 hv.1.2 v
+
 /-- loading: `dbval2val` = `make(json.loads(...))` gives a fully wrapped value, for every JSON document -/
 theorem C28_load_wrapped (cfg : Cfg) (v : T) (hv : isPlain v = true) (vol : Bool := false) : Inv (St.load cfg v vol) := by
   refine ⟨?_, ?_, hv, ?_⟩
@@ -43,24 +63,19 @@ theorem C28_load_wrapped (cfg : Cfg) (v : T) (hv : isPlain v = true) (vol : Bool
   · intro h; cases h
 
 /-- a new object `E(attr=v)`: `validate` wraps the value (the object is 'created': no row, no write bits) -/
-theorem C28_create_wrapped (cfg : Cfg) (v : T) (hv : tupFree v = true ∨ cfg.makeTuple = true) (vol : Bool := false) :
+theorem C28_create_wrapped (cfg : Cfg) (v : T) (hv : tupFree v = true ∨ rebindsAll cfg = true) (vol : Bool := false) :
     Inv (St.create cfg v vol) := by
   refine ⟨?_, ?_, rfl, ?_⟩
-  · rcases hv with hv | hv
-    · exact make_allW_of_tupFree cfg v hv
-    · exact make_allW cfg hv v
+  · exact assigned_allW cfg v hv
   · intro h; exact absurd rfl h
   · intro h; cases h
 
 /-- assignment `obj.attr = v` of any value without tuples (and of any value at all if `make` wraps tuples) -/
-theorem C28_assign_wrapped (cfg : Cfg) (s : St) (v : T) (hv : tupFree v = true ∨ cfg.makeTuple = true) :
+theorem C28_assign_wrapped (cfg : Cfg) (s : St) (v : T) (hv : tupFree v = true ∨ rebindsAll cfg = true) :
     allW (step cfg s (.assign v)).1.doc = true ∧ (s.status ≠ .created → (step cfg s (.assign v)).1.dirty = true) := by
-  have hd : (step cfg s (.assign v)).1.doc = make cfg v := by simp only [step, attrChanged]; split <;> rfl
+  have hd : (step cfg s (.assign v)).1.doc = assigned cfg v := by simp only [step, attrChanged]; split <;> rfl
   refine ⟨?_, ?_⟩
-  · rw [hd]
-    rcases hv with hv | hv
-    · exact make_allW_of_tupFree cfg v hv
-    · exact make_allW cfg hv v
+  · rw [hd]; exact assigned_allW cfg v hv
   · intro hs; simp [step, attrChanged, bitAll, hs]
 
 /-! ### the guard -/
@@ -95,28 +110,28 @@ theorem C28_guard_json (cfg : Cfg) (op : Op) (h : jsonOK cfg op = true) : op.arg
           simp only [Op.argsW, DMut.prep, DMut.args, makePairs, h.1, if_true]
           exact pairs_make_allW_of_tupFree cfg ps h.2
       | _ => simp_all [jsonOK, Op.argsW, DMut.prep, DMut.args, make_allW_of_tupFree]
-  | assign v => simpa [Op.argsW] using make_allW_of_tupFree cfg v (by simpa [jsonOK] using h)
+  | assign v => simpa [Op.argsW] using assigned_allW cfg v (.inl (by simpa [jsonOK] using h))
   | _ => rfl
 
 /-- when `make` wraps tuples and every iterable argument is wrapped, every operation satisfies the guard -/
 theorem C28_guard_wrapsAll (cfg : Cfg) (hw : cfg.wrapsAll = true) (op : Op) : op.argsW cfg = true := by
   simp only [Cfg.wrapsAll, Bool.and_eq_true, List.isEmpty_iff] at hw
-  obtain ⟨⟨ht, he⟩, hn⟩ := hw
+  obtain ⟨⟨⟨⟨ht, he⟩, hn⟩, hrb⟩, har⟩ := hw
   have hwr : ∀ m k, cfg.wraps m k = true := by intro m k; simp [Cfg.wraps, he]
   have hall : ∀ vs : List T, (vs.map (make cfg)).all allW = true := by
-    intro vs; simp only [List.all_eq_true, List.mem_map]; rintro _ ⟨v, _, rfl⟩; exact make_allW cfg ht v
+    intro vs; simp only [List.all_eq_true, List.mem_map]; rintro _ ⟨v, _, rfl⟩; exact make_allW cfg ht hrb v
   have hps : ∀ ps : Items, ((ps.map (fun p => (p.1, make cfg p.2))).map (·.2)).all allW = true := by
-    intro ps; simp only [List.all_eq_true, List.mem_map]; rintro _ ⟨_, ⟨p, _, rfl⟩, rfl⟩; exact make_allW cfg ht p.2
+    intro ps; simp only [List.all_eq_true, List.mem_map]; rintro _ ⟨_, ⟨p, _, rfl⟩, rfl⟩; exact make_allW cfg ht hrb p.2
   cases op with
-  | lmut p m => cases m <;> simp [Op.argsW, LMut.prep, LMut.args, makeVals, hwr, make_allW cfg ht, hall, notifies, hn]
+  | lmut p m => cases m <;> simp [Op.argsW, LMut.prep, LMut.args, makeVals, hwr, make_allW cfg ht hrb, hall, notifies, hn]
   | dmut p m =>
       cases m with
       | update k ps kw =>
           simp only [Op.argsW, DMut.prep, DMut.args, makePairs, hwr, if_true, List.map_append, List.all_append, Bool.and_eq_true]
           exact ⟨hps ps, hps kw⟩
       | ior k ps => simp only [Op.argsW, DMut.prep, DMut.args, makePairs, hwr, if_true]; exact hps ps
-      | _ => simp [Op.argsW, DMut.prep, DMut.args, make_allW cfg ht]
-  | assign v => simpa [Op.argsW] using make_allW cfg ht v
+      | _ => simp [Op.argsW, DMut.prep, DMut.args, make_allW cfg ht hrb]
+  | assign v => simpa [Op.argsW, assigned_eq_make cfg har] using make_allW cfg ht hrb v
   | _ => rfl
 
 /-! ### one step -/
@@ -174,7 +189,7 @@ theorem C28_inv_step (cfg : Cfg) (hc : cfg.covers = true) (s : St) (op : Op) (hs
         · exact attrChanged_inv s s.doc h1 hs'
   | read p => exact hs'
   | touch => exact attrChanged_inv s s.doc h1 hs'
-  | assign v => exact attrChanged_inv s (make cfg v) (by simpa [Op.argsW] using ha) hs'
+  | assign v => exact attrChanged_inv s (assigned cfg v) (by simpa [Op.argsW] using ha) hs'
   | other =>
       simp only [step]
       split
@@ -312,6 +327,8 @@ theorem C28_persist_json_current (v : T) (hv : isPlain v = true) (vol : Bool) (o
   (C28_persist table (by decide) _ (C28_load_wrapped table v hv vol) ops (fun op ho => C28_guard_json table op (ha op ho))).1
 
 /-- the same for an object created in this session (no row, no write bits until the first flush) -/
+theorem C28_rebinds_current : table.rebinds = true ∧ table.assignRebinds = true := by decide
+
 theorem C28_persist_created_json_current (v : T) (hv : tupFree v = true) (vol : Bool) (ops : List Op) (ha : ∀ op ∈ ops, jsonOK table op = true) :
     (run table (ops ++ [.flush]) (St.create table v vol)).db = ser (run table (ops ++ [.flush]) (St.create table v vol)).doc :=
   (C28_persist table (by decide) _ (C28_create_wrapped table v (.inl hv) vol) ops (fun op ho => C28_guard_json table op (ha op ho))).1
@@ -375,7 +392,7 @@ theorem C28_lost_extend (cfg : Cfg) (hc : cfg.covers = true) (k : IterKind) (hu 
   have h := hF v0 false (by decide) (witnessL .extend k)
   have h1 : LM.extend ∈ cfg.listOv := by simpa using Cfg.covers_list hc .extend
   have h2 : LM.append ∈ cfg.listOv := by simpa using Cfg.covers_list hc .append
-  simp [witnessL, run, step, notified, attrChanged, bitAll, notifies, LMut.raises, St.load, v0, elemE, one, make, makeL, modAt, locate, normIdx, applyL, lEffect, LMut.prep, LMut.meth, makeVals,
+  simp [witnessL, run, step, notified, attrChanged, bitAll, notifies, LMut.raises, Kind.isMap, St.load, v0, elemE, one, make, makeL, modAt, locate, normIdx, applyL, lEffect, LMut.prep, LMut.meth, makeVals,
     doFlush, ser, serL, Kind.ser, h1, h2, hu, li, List.findIdx?_cons] at h
 
 theorem C28_lost_iadd (cfg : Cfg) (hc : cfg.covers = true) (k : IterKind) (hu : cfg.wraps .iadd k = false) : ¬ Full cfg := by
@@ -383,7 +400,7 @@ theorem C28_lost_iadd (cfg : Cfg) (hc : cfg.covers = true) (k : IterKind) (hu : 
   have h := hF v0 false (by decide) (witnessL .iadd k)
   have h1 : LM.iadd ∈ cfg.listOv := by simpa using Cfg.covers_list hc .iadd
   have h2 : LM.append ∈ cfg.listOv := by simpa using Cfg.covers_list hc .append
-  simp [witnessL, run, step, notified, attrChanged, bitAll, notifies, LMut.raises, St.load, v0, elemE, one, make, makeL, modAt, locate, normIdx, applyL, lEffect, LMut.prep, LMut.meth, makeVals,
+  simp [witnessL, run, step, notified, attrChanged, bitAll, notifies, LMut.raises, Kind.isMap, St.load, v0, elemE, one, make, makeL, modAt, locate, normIdx, applyL, lEffect, LMut.prep, LMut.meth, makeVals,
     doFlush, ser, serL, Kind.ser, h1, h2, hu, li, List.findIdx?_cons] at h
 
 theorem C28_lost_setslice (cfg : Cfg) (hc : cfg.covers = true) (k : IterKind) (hu : cfg.wraps .setslice k = false) : ¬ Full cfg := by
@@ -391,7 +408,7 @@ theorem C28_lost_setslice (cfg : Cfg) (hc : cfg.covers = true) (k : IterKind) (h
   have h := hF v0 false (by decide) (witnessL (.setslice none none) k)
   have h1 : LM.setitem ∈ cfg.listOv := by simpa using Cfg.covers_list hc .setitem
   have h2 : LM.append ∈ cfg.listOv := by simpa using Cfg.covers_list hc .append
-  simp [witnessL, run, step, notified, attrChanged, bitAll, notifies, LMut.raises, St.load, v0, elemE, one, make, makeL, modAt, locate, normIdx, applyL, lEffect, LMut.prep, LMut.meth, makeVals,
+  simp [witnessL, run, step, notified, attrChanged, bitAll, notifies, LMut.raises, Kind.isMap, St.load, v0, elemE, one, make, makeL, modAt, locate, normIdx, applyL, lEffect, LMut.prep, LMut.meth, makeVals,
     sliceBounds, doFlush, ser, serL, Kind.ser, h1, h2, hu, li, List.findIdx?_cons] at h
 
 theorem C28_lost_update (cfg : Cfg) (hc : cfg.covers = true) (k : IterKind) (hu : cfg.wraps .update k = false) : ¬ Full cfg := by
@@ -399,7 +416,7 @@ theorem C28_lost_update (cfg : Cfg) (hc : cfg.covers = true) (k : IterKind) (hu 
   have h := hF v0 false (by decide) (witnessD (fun k ps => .update k ps []) k)
   have h1 : DM.update ∈ cfg.dictOv := by simpa using Cfg.covers_dict hc .update
   have h2 : LM.append ∈ cfg.listOv := by simpa using Cfg.covers_list hc .append
-  simp [witnessD, run, step, notified, attrChanged, bitAll, notifies, LMut.raises, St.load, v0, elemE, one, make, makeL, modAt, locate, normIdx, applyL, applyD, lEffect, dEffect, dSetAll, dSet,
+  simp [witnessD, run, step, notified, attrChanged, bitAll, notifies, LMut.raises, Kind.isMap, St.load, v0, elemE, one, make, makeL, modAt, locate, normIdx, applyL, applyD, lEffect, dEffect, dSetAll, dSet,
     LMut.meth, DMut.prep, DMut.meth, makePairs, doFlush, ser, serL, Kind.ser, h1, h2, hu, li, List.findIdx?_cons] at h
 
 theorem C28_lost_ior (cfg : Cfg) (hc : cfg.covers = true) (k : IterKind) (hu : cfg.wraps .ior k = false) : ¬ Full cfg := by
@@ -407,7 +424,7 @@ theorem C28_lost_ior (cfg : Cfg) (hc : cfg.covers = true) (k : IterKind) (hu : c
   have h := hF v0 false (by decide) (witnessD .ior k)
   have h1 : DM.ior ∈ cfg.dictOv := by simpa using Cfg.covers_dict hc .ior
   have h2 : LM.append ∈ cfg.listOv := by simpa using Cfg.covers_list hc .append
-  simp [witnessD, run, step, notified, attrChanged, bitAll, notifies, LMut.raises, St.load, v0, elemE, one, make, makeL, modAt, locate, normIdx, applyL, applyD, lEffect, dEffect, dSetAll, dSet,
+  simp [witnessD, run, step, notified, attrChanged, bitAll, notifies, LMut.raises, Kind.isMap, St.load, v0, elemE, one, make, makeL, modAt, locate, normIdx, applyL, applyD, lEffect, dEffect, dSetAll, dSet,
     LMut.meth, DMut.prep, DMut.meth, makePairs, doFlush, ser, serL, Kind.ser, h1, h2, hu, li, List.findIdx?_cons] at h
 
 theorem C28_lost_tuple (cfg : Cfg) (hc : cfg.covers = true) (hu : cfg.makeTuple = false) : ¬ Full cfg := by
@@ -415,7 +432,7 @@ theorem C28_lost_tuple (cfg : Cfg) (hc : cfg.covers = true) (hu : cfg.makeTuple 
   have h := hF v0 false (by decide) witnessT
   have h2 : LM.append ∈ cfg.listOv := by simpa using Cfg.covers_list hc .append
   have hm : cfg.tupleMode = .leave := by simpa [Cfg.makeTuple] using hu
-  simp [witnessT, run, step, notified, attrChanged, bitAll, notifies, LMut.raises, St.load, v0, one, make, makeL, modAt, locate, normIdx, applyL, lEffect, LMut.prep, LMut.meth,
+  simp [witnessT, run, step, notified, attrChanged, bitAll, notifies, LMut.raises, Kind.isMap, St.load, v0, one, make, makeL, modAt, locate, normIdx, applyL, lEffect, LMut.prep, LMut.meth,
     doFlush, ser, serL, Kind.ser, h2, hm, li] at h
 
 /-- `x = obj.data; x.sort()` raising after it has exchanged the two items -/
@@ -426,12 +443,35 @@ theorem C28_lost_partial (cfg : Cfg) (hc : cfg.covers = true) (hu : cfg.notifyOn
   intro hF
   have h := hF v0 false (by decide) witnessP
   have h1 : LM.sort ∈ cfg.listOv := by simpa using Cfg.covers_list hc .sort
-  simp [witnessP, run, step, notified, attrChanged, bitAll, notifies, LMut.raises, St.load, v0, make, makeL, modAt, applyL, lEffect,
+  simp [witnessP, run, step, notified, attrChanged, bitAll, notifies, LMut.raises, Kind.isMap, St.load, v0, make, makeL, modAt, applyL, lEffect,
     LMut.prep, LMut.meth, doFlush, ser, serL, Kind.ser, h1, hu] at h
+
+/-- a list that belongs to another object -/
+def foreignL : T := .node .flist false []
+
+/-- `obj.data[0].append(<list of another object>); flush(); obj.data[0][0].append(1)` -/
+def witnessF : List Op := [.lmut [.idx 0] (.append foreignL), .flush, .lmut [.idx 0, .idx 0] (.append one)]
+/-- `obj.data = <list of another object>; flush(); obj.data.append(1)` -/
+def witnessA : List Op := [.assign foreignL, .flush, .lmut [] (.append one)]
+
+/-- if `make` kept a wrapper that belongs to another object, a change made through it would tell the other object -/
+theorem C28_lost_foreign_arg (cfg : Cfg) (hc : cfg.covers = true) (hu : cfg.rebinds = false) : ¬ Full cfg := by
+  intro hF
+  have h := hF v0 false (by decide) witnessF
+  have h2 : LM.append ∈ cfg.listOv := by simpa using Cfg.covers_list hc .append
+  simp [witnessF, foreignL, run, step, notified, attrChanged, bitAll, notifies, LMut.raises, Kind.isMap, St.load, v0, one, make, makeL, makeF, modAt,
+    locate, normIdx, applyL, lEffect, LMut.prep, LMut.prepF, LMut.meth, doFlush, ser, serL, Kind.ser, h2, hu, li] at h
+
+theorem C28_lost_foreign_assign (cfg : Cfg) (hu : cfg.assignRebinds = false) : ¬ Full cfg := by
+  intro hF
+  have h := hF v0 false (by decide) witnessA
+  simp [witnessA, foreignL, run, step, notified, attrChanged, bitAll, assigned, St.load, v0, one, make, makeL, makeF, modAt,
+    applyL, lEffect, LMut.prepF, doFlush, ser, serL, Kind.ser, hu, li] at h
 
 /-- `C28_full_iff`: for a table that covers the mutators, the full statement (every change made in place, through any
     operation sequence with ARBITRARY arguments, is in the database after the commit) holds if and only if `make` wraps the
-    containers inside tuples, every iterable argument's elements are wrapped, and a change that ends in an exception is notified.  `table.wrapsAll` is evaluated on the table
+    containers inside tuples, every iterable argument's elements are wrapped, a change that ends in an exception is notified, and a
+    wrapper of another object / attribute that is handed in (as argument or by assignment) is re-bound to this one.  `table.wrapsAll` is evaluated on the table
     generated from the current source; the engine replays the witnesses on the real code. -/
 theorem C28_full_iff (cfg : Cfg) (hc : cfg.covers = true) : Full cfg ↔ cfg.wrapsAll = true := by
   constructor
@@ -443,7 +483,13 @@ theorem C28_full_iff (cfg : Cfg) (hc : cfg.covers = true) : Full cfg ↔ cfg.wra
       | nil =>
         cases hn : cfg.notifyOnError with
         | false => exact absurd hF (C28_lost_partial cfg hc hn)
-        | true => simp [Cfg.wrapsAll, ht, hl, hn]
+        | true =>
+          cases hrb : cfg.rebinds with
+          | false => exact absurd hF (C28_lost_foreign_arg cfg hc hrb)
+          | true =>
+            cases har : cfg.assignRebinds with
+            | false => exact absurd hF (C28_lost_foreign_assign cfg har)
+            | true => simp [Cfg.wrapsAll, ht, hl, hn, hrb, har]
       | cons mk rest =>
         obtain ⟨m, k⟩ := mk
         have hu : cfg.wraps m k = false := by simp [Cfg.wraps, hl]
@@ -463,6 +509,8 @@ def cfgUnwrapped : Cfg := {
   dictOv := DM.all,
   arrOv := LM.all,
   tupleMode := TupleMode.leave,
+  rebinds := true,
+  assignRebinds := true,
   iterUnwrapped := [(.extend, .tuple), (.extend, .gen), (.ior, .list)],
   notifyOnError := false }
 
